@@ -446,3 +446,61 @@ func VerifKeywordCase() {
 	verifnd.Assert(it.Typ == kws[k].t, "keyword-recognised-in-any-case")
 	verifnd.Assert(it.Pos == 0 && len(it.Val) == len(w), "keyword-token-spans-word")
 }
+
+// VerifEscapeTemplate: quoted literals consisting of one numeric escape - \ooo, \xHH, \uHHHH,
+// \UHHHHHHHH - whose digits are symbolic (any hex digit in either case, or the non-digit 'g'),
+// optionally followed by one plain character: lexer + unquoter accept it exactly when the
+// reference does (digits valid for the base, octal <= 377, code point <= U+10FFFF and no
+// surrogate), and then decode to exactly the reference bytes.
+func VerifEscapeTemplate() {
+	kinds := []struct {
+		letter byte
+		n      int
+	}{{'0', 3}, {'x', 2}, {'u', 4}, {'U', 8}}
+	k := kinds[verifnd.Choice(4)]
+	q := byte('"')
+	if verifnd.Param("FULL", 0) == 1 {
+		q = []byte{'"', '\''}[verifnd.Int(0, 1)]
+	}
+	b := []byte{q, '\\'}
+	if k.letter != '0' {
+		b = append(b, k.letter)
+	}
+	for i := 0; i < k.n; i++ {
+		c := verifnd.Byte()
+		if k.letter == 'U' && i < 2 {
+			verifnd.Assume(c == '0') // keep \U within reach: the top two digits are 0
+		} else {
+			verifnd.Assume(verifnd.Or(verifnd.And(c >= '0', c <= '9'), verifnd.And(c >= 'a', c <= 'g'), verifnd.And(c >= 'A', c <= 'F')))
+		}
+		b = append(b, c)
+	}
+	if verifnd.Param("FULL", 0) == 1 && verifnd.Int(0, 1) == 1 {
+		b = append(b, 'z')
+	}
+	b = append(b, q)
+	s := string(b)
+	ref, refOK := vRefQuoted(s)
+
+	p := &parser{}
+	p.lex = Lexer{input: s, state: lexStatements}
+	var it Item
+	p.lex.NextItem(&it)
+	spans := it.Typ == STRING && it.Pos == 0 && len(it.Val) == len(s)
+	accepted := false
+	var val string
+	if spans {
+		val = p.unquoteString(it.Val)
+		accepted = len(p.errs) == 0
+	}
+	if refOK {
+		verifnd.Reach("well-formed-escape")
+		verifnd.Assert(spans && accepted, "well-formed-escape-accepted")
+		if accepted {
+			verifnd.Assert(val == string(ref), "escape-value")
+		}
+	} else {
+		verifnd.Reach("malformed-escape")
+		verifnd.Assert(!accepted, "malformed-escape-rejected")
+	}
+}
